@@ -414,7 +414,7 @@ pub fn gen_str<W: Write>(w: &mut W, tier: &str, seed: u64) {
         emit(w, "K", &format!("OP asc T{}", hex(&format!("{}{}", c, c))));
     }
     // VAL / Val::from(&str) on numeric spellings
-    let nums = ["", "0", "12", "-12", "+5", " 42 ", "1.5", ".5", "5.", "1e3", "1E3", "1d3", "1D-2", "1e", "1e+", "&H1F", "&h1f", "&17", "&8", "&H", "&HFFFF", "&H7FFF", "&H-1", "&-7",
+    let nums = ["", "0", "12", "-12", "+5", " 42 ", "1.5", ".5", "5.", "1e3", "1E3", "1d3", "1D-2", "1e", "1e+", "&H1F", "&h1f", "&H0D", "&hde", "&H1D0", "&HE", "&H1E2", "&17", "&8", "&H", "&HFFFF", "&H7FFF", "&H-1", "&-7",
         "12abc", "abc", "1.2.3", "1e400", "1e-400", "123456789012345678901234567890", "0.1", "3.4028235e38", "7!", "7#", "7%", "1,2", "- 1", "--1", "1 2", "inf", "nan", "INFINITY", "-inf", "1_000", "١٢", "1e5!", "&H10!", "1D2#"];
     for s in nums {
         emit(w, "K", &format!("OFSTR {}", hex(s)));
